@@ -263,4 +263,96 @@ example : emit (httpErrorSegs (lit "'/<b>\"' does not exist")) =
 example : eaBlockLines (lit "ABSTRACT") (lit "one\n+INFO: fake\r\nthree") =
     [lit "+ABSTRACT:", lit " one", lit " +INFO: fake", lit " three"] := by decide +kernel
 
+/-! ### a menu line is one line -/
+
+theorem menuField_clean (s : Str) : ∀ c ∈ menuField s, c ≠ 9 ∧ c ≠ 13 ∧ c ≠ 10 := by
+  intro c hc
+  unfold menuField at hc
+  rw [List.mem_map] at hc
+  obtain ⟨a, _, ha⟩ := hc
+  by_cases h : a = 9 ∨ a = 13 ∨ a = 10
+  · simp only [h, if_true] at ha; subst ha; decide
+  · simp only [h, if_false] at ha; subst ha
+    exact ⟨fun e => h (Or.inl e), fun e => h (Or.inr (Or.inl e)), fun e => h (Or.inr (Or.inr e))⟩
+
+/-- text without TAB, CR, LF is left alone -/
+theorem menuField_id (s : Str) (h : ∀ c ∈ s, c ≠ 9 ∧ c ≠ 13 ∧ c ≠ 10) : menuField s = s := by
+  unfold menuField
+  induction s with
+  | nil => rfl
+  | cons a r ih =>
+    have ha := h a (by simp)
+    have : ¬ (a = 9 ∨ a = 13 ∨ a = 10) := by
+      intro hh; rcases hh with e | e | e
+      · exact ha.1 e
+      · exact ha.2.1 e
+      · exact ha.2.2 e
+    simp only [List.map_cons, this, if_false]
+    rw [ih (fun c hc => h c (by simp [hc]))]
+
+/-- **A menu line cannot be split or given extra fields by data.**  Whatever the entry's name,
+    selector and host contain (a file may be called `a<CR><LF>+ADMIN:`), the line
+    `GopherProtocol.renderobjinfo` writes — the `+INFO:` line of Gopher+ included — consists of the
+    type, three fields free of TAB, CR and LF, the port's digits, and one final CR LF: between its
+    first character and that CR LF there is no line break, provided the type has none (types
+    come from one-line sources: a gophermap line's first character, a `Type=` line, the mapping). -/
+theorem menu_line_is_one_line (srv : ServerId) (e : Entry) (line : Str) (h : gopher0Line srv e = some line)
+    (ht : ∀ c ∈ e.type.getD (lit "0"), c ≠ 13 ∧ c ≠ 10) :
+    ∃ body, line = body ++ [13, 10] ∧ ∀ c ∈ body, c ≠ 13 ∧ c ≠ 10 := by
+  unfold gopher0Line at h
+  cases hn : e.name with
+  | none => rw [hn] at h; cases h
+  | some nm =>
+    rw [hn] at h
+    simp only [Option.some.injEq] at h
+    have hport : ∀ c ∈ portOf srv e, c ≠ 13 ∧ c ≠ 10 := by
+      intro c hc
+      unfold portOf at hc
+      cases hp : e.port with
+      | none =>
+        rw [hp] at hc
+        have := toDec_digits srv.port c hc
+        exact ⟨by omega, by omega⟩
+      | some p =>
+        rw [hp] at hc
+        simp only [toDecInt] at hc
+        split at hc
+        · have := toDec_digits _ c hc; exact ⟨by omega, by omega⟩
+        · rcases List.mem_cons.mp hc with e1 | e1
+          · subst e1; decide
+          · have := toDec_digits _ c e1; exact ⟨by omega, by omega⟩
+    have mf : ∀ s, ∀ c ∈ menuField s, c ≠ 13 ∧ c ≠ 10 := fun s c hc => ⟨(menuField_clean s c hc).2.1, (menuField_clean s c hc).2.2⟩
+    have core : ∀ c ∈ e.type.getD (lit "0") ++ menuField nm ++ [9] ++ menuField e.selector ++ [9] ++ menuField (hostOf srv e) ++ [9] ++ portOf srv e,
+        c ≠ 13 ∧ c ≠ 10 := by
+      intro c hc
+      simp only [List.mem_append, List.mem_singleton] at hc
+      rcases hc with ((((((hc | hc) | hc) | hc) | hc) | hc) | hc) | hc
+      · exact ht c hc
+      · exact mf _ c hc
+      · subst hc; decide
+      · exact mf _ c hc
+      · subst hc; decide
+      · exact mf _ c hc
+      · subst hc; decide
+      · exact hport c hc
+    cases hg : e.gplus with
+    | false =>
+      rw [hg] at h
+      simp only [Bool.false_eq_true, if_false] at h
+      refine ⟨_, ?_, core⟩
+      rw [← h]
+      have : lit "\r\n" = [13, 10] := by decide
+      rw [this]
+    | true =>
+      rw [hg] at h
+      simp only [if_true] at h
+      refine ⟨e.type.getD (lit "0") ++ menuField nm ++ [9] ++ menuField e.selector ++ [9] ++ menuField (hostOf srv e) ++ [9] ++ portOf srv e ++ [9, 43], ?_, ?_⟩
+      · rw [← h]
+        have : lit "\t+\r\n" = [9, 43] ++ [13, 10] := by decide
+        rw [this]; simp [List.append_assoc]
+      · intro c hc
+        rcases List.mem_append.mp hc with h1 | h1
+        · exact core c h1
+        · simp at h1; rcases h1 with e1 | e1 <;> (subst e1; decide)
+
 end Pyg.Props.C13
